@@ -1,6 +1,7 @@
 package c07
 
 import (
+	"bytes"
 	"encoding/hex"
 	"fmt"
 	"strings"
@@ -28,7 +29,13 @@ import (
 //        bits 2..3 = position: 0 first packet of the stream, 1 after one key
 //        access unit, 2 after two, 3 after two plus the first fragment of a
 //        fragmented key frame (the fragment buffer is open),
-//        bit4 = GOP cache off.
+//        bit4 = GOP cache off,
+//        bit5 = (media targets) the P bit of the RTP header is set — the last
+//        payload octet then reads as a pad count (RFC 3550 §5.1); (FuzzRtcp) the
+//        audio control channel,
+//        bits 6..7 = the hostile packet is sent 1, 8, 40 or 90 times with
+//        consecutive sequence numbers (a middle fragment repeated = a
+//        fragmentation unit that never ends).
 
 const maxFuzzPayload = 2048
 
@@ -55,14 +62,23 @@ func fuzzCase(codec esgen.Codec, flags byte, ch byte, data []byte, class string)
 		c.Prefix = append(c.Prefix, mkPkt(rtp.ChannelVideo, frag.Data, "valid first fragment"))
 	}
 	c.Pos = len(c.Prefix)
-	switch ch {
-	case rtp.ChannelVideo:
-		c.Hostile = []pkt{mkPkt(ch, mediaPacket(96, flags&2 != 0, 601, ts, data), class)}
-	case rtp.ChannelAudio:
-		c.Hostile = []pkt{mkPkt(ch, mediaPacket(97, flags&2 != 0, 701, uint32(uint64(ts)*44100/90000), data), class)}
-	default:
-		c.Hostile = []pkt{mkPkt(ch, data, class)}
+	repeat := []int{1, 8, 40, 90}[flags>>6]
+	for i := 0; i < repeat; i++ {
+		var raw []byte
+		switch ch {
+		case rtp.ChannelVideo:
+			raw = mediaPacket(96, flags&2 != 0, 601+uint16(i), ts, data)
+		case rtp.ChannelAudio:
+			raw = mediaPacket(97, flags&2 != 0, 701+uint16(i), uint32(uint64(ts)*44100/90000), data)
+		default:
+			raw = data
+		}
+		if flags&0x20 != 0 && (ch == rtp.ChannelVideo || ch == rtp.ChannelAudio) {
+			raw[0] |= 0x20
+		}
+		c.Hostile = append(c.Hostile, mkPkt(ch, raw, class))
 	}
+	c.ProbeRot = int(flags>>2) % 3
 	planProbe(c)
 	return c
 }
@@ -82,6 +98,15 @@ func FuzzH264Payload(f *testing.F) {
 		f.Add(byte(12), h.B)
 	}
 	f.Add(byte(8), rtppack.H264StapA([][]byte{esgen.RealH264SPS, esgen.RealH264PPS, {0x65, 0x88, 0x84}}))
+	mid := append([]byte{0x7c, 0x05}, bytes.Repeat([]byte{0x91}, 2000)...) // FU-A middle fragment: neither S nor E
+	for _, fl := range []byte{0x0c, 0x4c, 0x8c, 0xcc, 0xc8, 0xc4} {        // after an open start fragment / fresh; 1, 8, 40, 90 times
+		f.Add(fl, mid)
+	}
+	f.Add(byte(0xcc), append([]byte{0x7c, 0x85}, bytes.Repeat([]byte{0x91}, 2000)...)) // 90 start fragments
+	for _, last := range []byte{0, 1, 3, 4, 5, 16, 255} {                              // P bit, last octet = pad count
+		f.Add(byte(0x24), []byte{0x65, 0x88, 0x84, last})
+		f.Add(byte(0x28), []byte{last})
+	}
 	f.Fuzz(func(t *testing.T, flags byte, data []byte) {
 		fuzzJudge(t, "fuzz-h264", fuzzCase(esgen.H264, flags, rtp.ChannelVideo, data, "fuzz-h264-payload"))
 	})
@@ -93,6 +118,15 @@ func FuzzH265Payload(f *testing.F) {
 		f.Add(byte(12), h.B)
 	}
 	f.Add(byte(8), rtppack.H265AP([][]byte{esgen.RealH265VPS, esgen.RealH265SPS, esgen.RealH265PPS, {0x26, 0x01, 0xaf}}))
+	mid := append([]byte{0x62, 0x01, 0x13}, bytes.Repeat([]byte{0x91}, 2000)...) // FU middle fragment: neither S nor E
+	for _, fl := range []byte{0x0c, 0x4c, 0x8c, 0xcc, 0xc8, 0xc4} {
+		f.Add(fl, mid)
+	}
+	f.Add(byte(0xcc), append([]byte{0x62, 0x01, 0x93}, bytes.Repeat([]byte{0x91}, 2000)...))
+	for _, last := range []byte{0, 1, 3, 4, 5, 16, 255} {
+		f.Add(byte(0x24), []byte{0x26, 0x01, 0x84, last})
+		f.Add(byte(0x28), []byte{last})
+	}
 	f.Fuzz(func(t *testing.T, flags byte, data []byte) {
 		fuzzJudge(t, "fuzz-h265", fuzzCase(esgen.H265, flags, rtp.ChannelVideo, data, "fuzz-h265-payload"))
 	})
@@ -104,6 +138,10 @@ func FuzzAacPayload(f *testing.F) {
 		f.Add(byte(9), h.B)
 	}
 	f.Add(byte(4), rtppack.AacHbr([][]byte{{0x21, 0x10, 0x04, 0x60}, {0x21, 0x11}}))
+	for _, last := range []byte{0, 1, 5, 6, 7, 18, 255} { // P bit, last octet = pad count
+		f.Add(byte(0x24), append(rtppack.AacHbr([][]byte{{0x21, 0x10, 0x04}}), last))
+		f.Add(byte(0x28), []byte{last})
+	}
 	f.Fuzz(func(t *testing.T, flags byte, data []byte) {
 		fuzzJudge(t, "fuzz-aac", fuzzCase(esgen.H264, flags, rtp.ChannelAudio, data, "fuzz-aac-payload"))
 	})
